@@ -127,6 +127,9 @@ inline bool past_deadline() { return now_s() - g_start > g_deadline; }
 // united with (anchors + d). Sorted, unique.
 std::vector<i64> S_set(int w, int r, bool with_nan = false, bool with_int_min = false);
 std::vector<i64> const& anchors();
+// two-cluster values +-((m1 << e1) | (m2 << e2)), 1 <= m1, m2 < 2^w, e1 > e2 + w: two separated groups of significant bits (for unary sweeps only)
+std::vector<i64> S2_set(int w, bool with_nan = false);
+std::vector<i64> merge_sets(std::vector<i64> a, std::vector<i64> const& b);
 std::vector<i64> filter_abs_below(std::vector<i64> const& v, i64 bound);   // |x| < bound
 std::string to_s(i64 v);
 std::string to_su(u64 v);
